@@ -13,6 +13,7 @@ import (
 	"strings"
 	"time"
 
+	"github.com/anishathalye/porcupine"
 	"github.com/google/uuid"
 
 	"github.com/glebziz/fs_db"
@@ -31,9 +32,10 @@ import (
 // the same way.
 
 type CrashCase struct {
-	Seq    SeqCase `json:"seq"`
-	Torn   string  `json:"torn"`   // none | even | all : which file-write crash points also get a torn variant
-	Level2 int     `json:"level2"` // how many first-level crash points also get every second-level (recovery) crash point
+	Conc   *ConcCase `json:"conc,omitempty"` // two concurrent clients instead of one sequential workload
+	Seq    SeqCase   `json:"seq"`
+	Torn   string    `json:"torn"`   // none | even | all : which file-write crash points also get a torn variant
+	Level2 int       `json:"level2"` // how many first-level crash points also get every second-level (recovery) crash point
 }
 
 type propC04 struct{}
@@ -65,6 +67,9 @@ func (propC04) Runs(tier string) int {
 }
 
 func (propC04) Gen(r *simrt.Rand, idx int, tier string) any {
+	if idx%4 == 3 {
+		return genCrashConc(r, idx, tier)
+	}
 	p := seqProfile{prop: "C04", steps: [2]int{3, 12}, keys: [2]int{2, 3}, maxTx: 2, txWeight: 60, ctlWeight: 15, readback: "none", big: idx%3 == 0, overlap: r.Intn(2) == 0}
 	c := genSeqCase(r, p)
 	// reads contribute nothing to a crash test: turn them into writes
@@ -176,6 +181,9 @@ func CrashChild(caseFile, dir, logPath, mode string, kill uint64, torn bool) int
 	simrt.SetMutationLog(func(n uint64, kind, path string) {
 		log.line(fmt.Sprintf("mut %d %s", n, kind))
 	})
+	if c.Conc != nil && mode == "work" {
+		return crashChildConc(c, dir, log, kill, torn)
+	}
 	cfg := c.Seq.Sched.config(nil)
 	cfg.Strategy = "seqbg"
 	status := 0
@@ -359,6 +367,16 @@ func CrashVerify(caseFile, dir, logPath string) int {
 			written[o.ID] = o
 		}
 	}
+	if c.Conc != nil {
+		c.Seq.World, c.Seq.Sched = c.Conc.World, c.Conc.Sched
+		for _, ops := range append([][]Op{c.Conc.Init}, c.Conc.Clients...) {
+			for _, o := range ops {
+				if o.ID != 0 {
+					written[o.ID] = o
+				}
+			}
+		}
+	}
 	// the verifier is a plain process (real scheduling): it is an observer only, so the workload's
 	// simulated-time knobs (a GC period of microseconds) must not turn into real-time background
 	// churn racing with its reads
@@ -368,7 +386,11 @@ func CrashVerify(caseFile, dir, logPath string) int {
 	out.First = readState(w, written)
 	w2 := worldAt(dir, c.Seq.World, c.Seq.Sched.Seed+2, false)
 	out.Second = readState(w2, written)
-	out.Viol = judgeCrash(c, &out)
+	if c.Conc != nil {
+		out.Viol = judgeCrashConc(c, logPath, &out)
+	} else {
+		out.Viol = judgeCrash(c, &out)
+	}
 	raw, _ := json.Marshal(out)
 	os.Stdout.Write(raw)
 	return 0
@@ -539,6 +561,13 @@ func (propC04) Exec(x any, _ []int32) RunOut {
 	h.Write(b)
 	out.CaseHash = h.Sum64()
 	out.Sample, _ = json.Marshal(map[string]any{"keys": c.Seq.Keys, "ops": opsSummary(c.Seq.Ops), "torn": c.Torn})
+	if c.Conc != nil {
+		var cl [][]string
+		for _, ops := range c.Conc.Clients {
+			cl = append(cl, opsSummary(ops))
+		}
+		out.Sample, _ = json.Marshal(map[string]any{"mode": "two concurrent clients", "keys": c.Conc.Keys, "init": opsSummary(c.Conc.Init), "clients": cl, "torn": c.Torn})
+	}
 
 	dir := filepath.Join(base, "d")
 	logp := filepath.Join(base, "log")
@@ -608,6 +637,12 @@ func (propC04) Exec(x any, _ []int32) RunOut {
 			if n <= M {
 				out.Faults["kill@"+strings.Fields(dryMuts[n-1])[1]]++
 			}
+			if c.Conc != nil {
+				inflight = -1
+				if concInFlight(logp) > 0 {
+					inflight = 0
+				}
+			}
 			if inflight >= 0 {
 				tb := uint64(0)
 				if torn {
@@ -616,12 +651,15 @@ func (propC04) Exec(x any, _ []int32) RunOut {
 				out.InnerNT = append(out.InnerNT, simrt.Mix(out.CaseHash^uint64(n)<<1^tb))
 				out.NonTrivial = true
 				out.Probes["kill-inside-operation"]++
-				if c.Seq.Ops[inflight].K == "commit" {
+				if c.Conc == nil && c.Seq.Ops[inflight].K == "commit" {
 					out.Probes["kill-inside-commit"]++
+				}
+				if c.Conc != nil && concInFlight(logp) > 1 {
+					out.Probes["kill-with-two-operations-in-flight"]++
 				}
 			}
 			// second level: crash inside recovery
-			if level2Left > 0 && n <= M && (n*7+int(c.Seq.Sched.Seed%5))%5 == 0 {
+			if c.Conc == nil && level2Left > 0 && n <= M && (n*7+int(c.Seq.Sched.Seed%5))%5 == 0 {
 				level2Left--
 				if viol, infra := crashInRecovery(c, base, caseFile, dir, logp, &out); infra != "" {
 					out.Infra = infra
@@ -702,4 +740,191 @@ func tailFile(p string) string {
 		l = l[len(l)-6:]
 	}
 	return strings.Join(l, " | ")
+}
+
+// ---- two concurrent clients -----------------------------------------------------------------------
+
+func genCrashConc(r *simrt.Rand, idx int, tier string) CrashCase {
+	c := ConcCase{Prop: "C04"}
+	c.World = genConcWorld(r)
+	c.World.Roots = c.World.Roots[:1]
+	c.Keys = genKeys(r, 2, 2)
+	id := uint64(0)
+	for _, k := range c.Keys {
+		if r.Intn(3) > 0 {
+			id++
+			c.Init = append(c.Init, Op{K: "set", Key: k, ID: id, Size: 9 + r.Intn(60)})
+		}
+	}
+	tx := 0
+	for ci := 0; ci < 2; ci++ {
+		var ops []Op
+		for len(ops) < 2+r.Intn(4) {
+			key := c.Keys[r.Intn(len(c.Keys))]
+			switch r.Pick(6, 3, 1, 2) {
+			case 0:
+				id++
+				ops = append(ops, Op{K: "set", Key: key, ID: id, Size: 9 + r.Intn(3000)})
+			case 1:
+				ops = append(ops, Op{K: "get", Key: key})
+			case 2:
+				ops = append(ops, Op{K: "del", Key: key})
+			default:
+				tx++
+				ops = append(ops, Op{K: "begin", Tx: tx, Level: r.Intn(4)})
+				for _, ki := range r.Perm(len(c.Keys)) {
+					id++
+					ops = append(ops, Op{K: "set", Tx: tx, Key: c.Keys[ki], ID: id, Size: 9 + r.Intn(200)})
+				}
+				ops = append(ops, Op{K: "commit", Tx: tx})
+			}
+		}
+		c.Clients = append(c.Clients, ops)
+	}
+	c.Sched = genSched(r, 500)
+	c.Sched.MaxSteps = 400_000
+	cc := CrashCase{Conc: &c, Torn: "even"}
+	if tier == "thorough" {
+		cc.Torn = "all"
+	}
+	return cc
+}
+
+type concLogLine struct {
+	T       string   `json:"t"` // inv | ack
+	C       int      `json:"c"`
+	N       int      `json:"n"` // sequence number of the operation in the child's history
+	Op      Op       `json:"op"`
+	Class   string   `json:"class,omitempty"`
+	Val     uint64   `json:"val,omitempty"`
+	Foreign string   `json:"foreign,omitempty"`
+	Keys    []string `json:"keys,omitempty"`
+}
+
+func crashChildConc(c CrashCase, dir string, log *crashLog, kill uint64, torn bool) int {
+	cc := *c.Conc
+	cc.Dir = dir
+	cc.Final = false
+	concKillAt, concKillTorn = kill, torn
+	concOpLog = func(kind string, client, n int, ev *HEvent) {
+		l := concLogLine{T: kind, C: client, N: n, Op: ev.Op}
+		if kind == "ack" {
+			l.Class, l.Val, l.Foreign, l.Keys = ev.Class, ev.ValID, ev.Foreign, ev.Keys
+		}
+		b, _ := json.Marshal(l)
+		log.line("op " + string(b))
+	}
+	out, _ := concExec(cc, nil)
+	if out.Violation != nil || out.Infra != "" || out.Inconclusive != "" {
+		log.line("simstatus " + strconv.Quote(fmt.Sprintf("%v %s %s", out.Violation, out.Infra, out.Inconclusive)))
+		return 4
+	}
+	log.line(fmt.Sprintf("done %d", simrt.Mutations()))
+	return 0
+}
+
+func parseConcLog(path string) (done []HEvent, inflight []HEvent, lines int) {
+	b, _ := os.ReadFile(path)
+	open := map[int]HEvent{}
+	for _, l := range strings.Split(string(b), "\n") {
+		if !strings.HasPrefix(l, "op ") {
+			continue
+		}
+		var cl concLogLine
+		if json.Unmarshal([]byte(l[3:]), &cl) != nil {
+			continue
+		}
+		lines++
+		if cl.T == "inv" {
+			open[cl.C*100000+cl.N] = HEvent{Client: cl.C, Op: cl.Op, Call: uint64(lines)}
+			continue
+		}
+		// the key of an in-flight operation is (client, position of the invoke); acks carry the same n
+		for k, e := range open {
+			if e.Client == cl.C && e.Op.K == cl.Op.K && e.Op.ID == cl.Op.ID && e.Op.Key == cl.Op.Key && e.Op.Tx == cl.Op.Tx {
+				e.Ret = uint64(lines)
+				e.Class, e.ValID, e.Foreign, e.Keys = cl.Class, cl.Val, cl.Foreign, cl.Keys
+				done = append(done, e)
+				delete(open, k)
+				break
+			}
+		}
+	}
+	for _, e := range open {
+		inflight = append(inflight, e)
+	}
+	sort.Slice(inflight, func(i, j int) bool { return inflight[i].Call < inflight[j].Call })
+	return
+}
+
+func concInFlight(logp string) int {
+	_, in, _ := parseConcLog(logp)
+	return len(in)
+}
+
+// judgeCrashConc: the history before the crash (acknowledged operations with their recorded
+// results, plus any subset of the operations that were in flight, assumed successful), then the
+// crash (every open transaction is gone), then the verifier's reads of every key and of GetKeys
+// must have a linearization against the reference model.
+func judgeCrashConc(c CrashCase, logPath string, v *verifyOut) *Violation {
+	mk := func(class, sig, detail string) *Violation {
+		return &Violation{Class: class, Signature: "C04|" + class + "|" + sig + ",two-clients", Detail: detail}
+	}
+	if v.First.OpenErr != "" {
+		return mk("reopen-differs", "open-failed", "the database does not open after the crash: "+v.First.OpenErr)
+	}
+	for k, why := range v.First.Bad {
+		return mk("partial-or-mixed-content", "after-crash", fmt.Sprintf("after the crash key %q: %s", k, why))
+	}
+	if v.Second.OpenErr != "" || !sameState(v.First.Vals, v.Second.Vals) || len(v.Second.Bad) > 0 {
+		return mk("reopen-differs", "second-open", fmt.Sprintf("first open after the crash: %v; second open: %v %v %s", v.First.Vals, v.Second.Vals, v.Second.Bad, v.Second.OpenErr))
+	}
+	done, inflight, lines := parseConcLog(logPath)
+	t := uint64(lines + 10)
+	var tail []HEvent
+	tail = append(tail, HEvent{Client: 99, Op: Op{K: "crash"}, Call: t, Ret: t + 1})
+	t += 2
+	for _, k := range c.Conc.Keys {
+		e := HEvent{Client: 99, Op: Op{K: "get", Key: k}, Call: t, Ret: t + 1}
+		if id, ok := v.First.Vals[k]; ok {
+			e.ValID = id
+		} else {
+			e.Class = "ErrNotFound"
+		}
+		tail = append(tail, e)
+		t += 2
+	}
+	tail = append(tail, HEvent{Client: 99, Op: Op{K: "keys"}, Keys: v.First.Keys, Call: t, Ret: t + 1})
+	// in-flight writes / commits may or may not have taken effect
+	var maybe []HEvent
+	for _, e := range inflight {
+		switch e.Op.K {
+		case "set", "setr", "create", "del", "commit", "begin", "rollback":
+			e.Ret = uint64(lines + 5)
+			e.Class = ""
+			maybe = append(maybe, e)
+		}
+	}
+	for mask := 0; mask < 1<<len(maybe); mask++ {
+		var ops []porcupine.Operation
+		add := func(e HEvent) {
+			ops = append(ops, porcupine.Operation{ClientId: e.Client, Input: e.Op, Call: int64(e.Call), Output: e, Return: int64(e.Ret)})
+		}
+		for _, e := range done {
+			add(e)
+		}
+		for i, e := range maybe {
+			if mask&(1<<i) != 0 {
+				add(e)
+			}
+		}
+		for _, e := range tail {
+			add(e)
+		}
+		switch porcupine.CheckOperationsTimeout(linModel, ops, 5*time.Second) {
+		case porcupine.Ok, porcupine.Unknown:
+			return nil
+		}
+	}
+	return mk("acked-lost-after-crash", "not-linearizable", fmt.Sprintf("recovered state %v (keys %q) cannot be explained: the acknowledged operations, any subset of the %d operations in flight, the crash and the recovered reads have no linearization", v.First.Vals, v.First.Keys, len(maybe)))
 }
